@@ -7,6 +7,9 @@ Space: three small generated DEX files (gen/dexcatalog.TINY) x
   * with the checksum REPAIRED: magic bytes 0,1,2,3,7 x all 255 alternatives (byte 2 -> 'y' (dey) excluded: the
     optimized-dex magic is accepted by design; version digits 4..6 are not judged), endian tag in
     {swapped, 0, ffffffff, 12345679, 78563413}, header size in {0, 0x6f, 0x71, 0xffffffff, 0x70 << 8}.
+  * the same enumerations on four files whose REAL Adler-32 is a special value (0, 1, 0x00010000, 0xfff0fff0; the 'fields'
+    file plus a 2000-character filler string solved for both running sums, signature blank), 5 byte values per offset in
+    quick and all 255 in thorough; and the checksum field of every file overwritten with those special values.
 Oracle: DEX(buf) raises ValueError / NotImplementedError (an `Exception`), and wrappers around MapList.__init__ and
 MapItem.parse prove that nothing was parsed before the rejection.
 """
@@ -17,7 +20,7 @@ from mc.core import Acc
 
 PROPERTY = "C09"
 LEVEL = "fault_enumeration"
-RULE = ("3 generated DEX files x {every offset>=12 x 255 other byte values; checksum bytes x 255; every truncation; "
+RULE = ("3 generated DEX files + 4 files tuned to a special real Adler-32 (0, 1, 0x10000, 0xfff0fff0) x {every offset>=12 x 255 other byte values; checksum bytes x 255; every truncation; "
         "extensions by 1-4 bytes; checksum-repaired wrong magic / endian tag / header size}; every mutant is distinct by "
         "construction; non-trivial = the mutant differs from the valid file (all of them)")
 ASSUMPTIONS = ["'dey\\n' (optimized dex) magic and arbitrary version digits are accepted by design and not judged",
@@ -32,11 +35,69 @@ MANIFEST = {
 }
 
 FILES = ["empty", "fields", "method"]
+# files whose REAL Adler-32 is a special value (both running sums are free modulo 65521): 0 (a blank-looking field),
+# 1 (the checksum of no data), 0x00010000, and the largest value 0xfff0fff0
+SPECIAL = {"adler0": (0, 0), "adler1": (1, 0), "adler10000": (0, 1), "adlermax": (65520, 65520)}
+FILES_ALL = FILES + list(SPECIAL)
+FILLER_N = 2000
+MOD = 65521
+
+
+def tuned(target):
+    """the 'fields' file plus one 2000-character ASCII filler string, signature left blank (androguard never reads it), the
+    filler chosen so that adler32(file[12:]) == target exactly.  Deterministic; asserts the result."""
+    from gen import dexcatalog, dexgen
+    m = dexcatalog.TINY["fields"]()
+    m.extra_strings = tuple(getattr(m, "extra_strings", ())) + ("~~~~" + "P" * FILLER_N,)
+    b = bytearray(dexgen.build(m))
+    b[12:32] = bytes(20)
+    f0 = bytes(b).index(b"~~~~" + b"P" * FILLER_N) + 4
+    n = len(b) - 12
+    tA, tB = target
+
+    def sums():
+        v = zlib.adler32(bytes(b[12:])) & 0xffffffff
+        return v & 0xffff, v >> 16
+    A, _ = sums()
+    dA = (tA - A) % MOD
+    if dA > MOD // 2:
+        dA -= MOD
+    q, r = divmod(abs(dA), FILLER_N)
+    sg = 1 if dA >= 0 else -1
+    for i in range(FILLER_N):
+        b[f0 + i] += sg * (q + (1 if i < r else 0))
+    _, B = sums()
+    R = (tB - B) % MOD
+    # moving one unit from filler index j to index i < j raises B by j - i and leaves A alone
+    k = 0
+    while R:
+        i, j = k, FILLER_N - 1 - k
+        d = j - i
+        if d <= 0:
+            raise AssertionError("filler exhausted")
+        if R < d:
+            j = i + R
+            d = R
+        u = min(R // d, 0x7e - b[f0 + i], b[f0 + j] - 0x21)
+        b[f0 + i] += u
+        b[f0 + j] -= u
+        R -= u * d
+        k += 1
+    b[8:12] = struct.pack("<I", zlib.adler32(bytes(b[12:])) & 0xffffffff)
+    assert sums() == (tA, tB), (sums(), target)
+    assert all(0x21 <= c <= 0x7e for c in b[f0:f0 + FILLER_N])
+    return bytes(b)
+
+
+_cache = {}
 
 
 def _files():
-    from gen import dexcatalog, dexgen
-    return {n: dexgen.build(dexcatalog.TINY[n]()) for n in FILES}
+    if not _cache:
+        from gen import dexcatalog, dexgen
+        _cache.update({n: dexgen.build(dexcatalog.TINY[n]()) for n in FILES})
+        _cache.update({n: tuned(t) for n, t in SPECIAL.items()})
+    return _cache
 
 
 _probe = {"n": 0}
@@ -77,6 +138,9 @@ def mutate(base, mut):
     if k == "hdr":      # checksum-repaired header overwrite: (offset, hex bytes)
         b = bytearray(base); raw = bytes.fromhex(mut[2]); b[mut[1]:mut[1] + len(raw)] = raw
         return repair(b)
+    if k == "raw":      # overwrite WITHOUT repairing the checksum: (offset, hex bytes)
+        b = bytearray(base); raw = bytes.fromhex(mut[2]); b[mut[1]:mut[1] + len(raw)] = raw
+        return bytes(b)
     raise ValueError(k)
 
 
@@ -104,6 +168,8 @@ def classify(base, mut):
         return "truncation" + (":inside-header" if mut[1] < 0x70 else "")
     if k == "ext":
         return "extension"
+    if k == "raw":
+        return "checksum-field-overwritten"
     return "repaired:" + {0: "magic", 1: "magic", 2: "magic", 3: "magic", 7: "magic", 40: "endian-tag", 36: "header-size"}[mut[1]]
 
 
@@ -125,6 +191,10 @@ def _judge_once(name, base, mut):
     buf = mutate(base, mut)
     if buf == base:
         return None
+    if mut[0] in ("trunc", "ext") and len(buf) >= 12 and zlib.adler32(buf[12:]) & 0xffffffff == struct.unpack_from("<I", buf, 8)[0]:
+        # Adler-32 with a zero low sum cannot see appended / removed zero bytes: the checksum of this buffer is RIGHT, and the
+        # property only speaks of wrong checksums and single-byte changes -> not judged
+        return None
     # history: the intact file is loaded first in the same process (a parser that remembers what it has already
     # verified must still reject the corrupted copy); replay() goes through here too, so the history is part of every witness
     try:
@@ -142,14 +212,20 @@ def _judge_once(name, base, mut):
     return (classify(base, mut), "%s %r: corrupted buffer accepted (map structures parsed: %d)" % (name, mut, _probe["n"]))
 
 
-def cases(name, base, part, nparts):
+def cases(name, base, part, nparts, thorough=False):
     n = len(base)
     offs = list(range(8, n))
     for off in offs[part::nparts]:
-        for v in range(256):
+        if name in SPECIAL and not thorough:
+            vals = sorted({base[off] ^ 1, base[off] ^ 0x80, base[off] ^ 0xff, 0, 0xff})     # quick: 5 values per offset
+        else:
+            vals = range(256)
+        for v in vals:
             if v != base[off]:
                 yield ("sub", off, v)
     if part == 0:
+        for w in ("00000000", "01000000", "00000100", "ffffffff", "f0fff0ff"):
+            yield ("raw", 8, w)
         for t in range(0, n):
             yield ("trunc", t)
         for e in ("00", "ff", "0000", "ffff", "000000", "00000000", "ffffffff"):
@@ -169,13 +245,16 @@ NPARTS = 16
 
 
 def shards(ctx):
-    return [(f, p) for f in FILES for p in range(NPARTS)]
+    return [(f, p) for f in FILES_ALL for p in range(NPARTS)]
 
 
 def space(ctx):
     fs = _files()
     return {"files": {k: len(v) for k, v in fs.items()}, "byte_alphabet": "all 255 other values", "offsets": ">= 8",
-            "truncations": "every length", "repaired_header": ["magic bytes 0,1,2,3,7", "endian tag x5", "header size x5"]}
+            "truncations": "every length",
+            "special_real_checksums": {k: "%08x" % (t[0] | t[1] << 16) for k, t in SPECIAL.items()},
+            "special_file_values_per_offset": "all 255" if ctx.thorough else "xor 01 / xor 80 / xor ff / 00 / ff",
+            "checksum_field_overwrites": ["00000000", "00000001", "00010000", "ffffffff", "fff0fff0"], "repaired_header": ["magic bytes 0,1,2,3,7", "endian tag x5", "header size x5"]}
 
 
 def run_shard(ctx, shard):
@@ -190,13 +269,14 @@ def run_shard(ctx, shard):
     except Exception as e:     # noqa
         acc.harness_error("generated file %s is rejected unmodified: %r" % (name, e))
         return acc
-    for mut in cases(name, base, part, NPARTS):
+    sp = ":real-checksum-%s" % name[5:] if name in SPECIAL else ""
+    for mut in cases(name, base, part, NPARTS, ctx.thorough):
         r = judge(name, base, mut)
         acc.n += 1
         acc.nt_disjoint += 1
-        acc.outcomes.add(hash(classify(base, mut)))
+        acc.outcomes.add(hash(classify(base, mut) + sp))
         if r:
-            acc.violation(r[0], {"file": name, "mut": list(mut)}, r[1])
+            acc.violation(r[0] + sp, {"file": name, "mut": list(mut)}, r[1])
     if part == 0:
         acc.sample({"file": name, "mut": ["sub", 12, base[12] ^ 1]})
         acc.sample({"file": name, "mut": ["hdr", 40, "12345678"[::-1]]})
